@@ -445,3 +445,35 @@ func configOnly(cond ssa.Value, field string) bool {
 	rec(cond)
 	return ok && touches
 }
+
+// R11RedirProvenance — the "behind a redirector" switch comes from the profile only.
+func R11RedirProvenance(c *Ctx) {
+	const rule = "R11-redir-provenance"
+	c.R.Rule(rule, "every write of HTTPConfig.BehindRedir (field store or literal field, anywhere in the module) takes its value from the profile's Demon.TrustXForwardedFor, so the X-Forwarded-For header is believed only when the profile says the teamserver sits behind a redirector; the only reader is the address selection in (*HTTP).request", 4)
+	for _, fn := range c.P.ModuleFuncs(NonYaotl) {
+		for _, b := range fn.Blocks {
+			for _, in := range b.Instrs {
+				st, ok := in.(*ssa.Store)
+				if !ok {
+					continue
+				}
+				t, f, _, ok := FieldOf(st.Addr)
+				if !ok || t != PkgHandlers+".HTTPConfig" || f != "BehindRedir" {
+					continue
+				}
+				good := false
+				if ld, ok := st.Val.(*ssa.UnOp); ok && ld.Op == token.MUL {
+					if t2, f2, _, ok := FieldOf(ld.X); ok && t2 == PkgProfile+".Demon" && f2 == "TrustXForwardedFor" {
+						good = true
+					}
+				}
+				construct := "HTTPConfig.BehindRedir = Profile.Config.Demon.TrustXForwardedFor"
+				if good {
+					c.R.Ok(rule, FuncShort(fn), construct, c.pos(st.Pos()), "taken from the profile", true)
+				} else {
+					c.R.Bad(rule, FuncShort(fn), construct, c.pos(st.Pos()), "the redirector switch is set from "+DescribeValue(st.Val)+" instead of the profile: the forwarded-for header is believed (or ignored) regardless of what the profile says")
+				}
+			}
+		}
+	}
+}
